@@ -169,14 +169,17 @@ def kill_all_live():
             _kill(p)
 
 
-def run_job(job, sim_dir=SIM_DIR, repo_marker=REPO, timeout_factor=10.0, cancel=None):
+def run_job(job, sim_dir=SIM_DIR, repo_marker=REPO, timeout_factor=30.0, cancel=None):
     """Execute one simulated run in a fresh process.  Returns a result dict:
     {status: ok|ub|deadlock|harness|timeout, log, stderr, wall, ...}."""
     flags = flags_of(job)
     tgt = job.get("target")
     cmd = (["cargo", "+nightly", "miri", "run", "-q", "--offline"] + (["--release"] if job.get("release") else [])
            + (["--target", tgt] if tgt else []) + ["--"] + argv_of(job))
-    tmo = max(180.0, timeout_factor * predicted_cost(job))
+    # wall-clock safety net only (a run that stops making progress is caught, deterministically, by the
+    # simulated-time liveness monitor): generous, so that a correct but much slower generator — one that
+    # pre-generates a large buffer per thread, say — is not cut off
+    tmo = max(900.0, timeout_factor * predicted_cost(job))
     t0 = time.time()
     if cancel is not None and cancel.is_set():
         return {"status": "cancelled", "wall": 0.0, "log": "", "stderr": "", "cmd": cmd, "flags": flags}
@@ -190,7 +193,7 @@ def run_job(job, sim_dir=SIM_DIR, repo_marker=REPO, timeout_factor=10.0, cancel=
             _kill(p)
             so, se = p.communicate()
             return {"status": "timeout", "wall": time.time() - t0, "log": "", "stderr": (se or b"").decode("utf-8", "replace")[-4000:],
-                    "cmd": cmd, "flags": flags, "timeout_s": tmo, "why": f"no result within {tmo:.0f}s (10x the predicted cost): possible non-termination"}
+                    "cmd": cmd, "flags": flags, "timeout_s": tmo, "why": f"no result within {tmo:.0f}s (30x the predicted cost, at least 15 min): possible non-termination"}
     finally:
         with _LIVE_LOCK:
             _LIVE.discard(p)
